@@ -407,36 +407,56 @@ def check_C02(ctx):
     ctx.assumptions += ["wasmparser's validator with walrus's feature list is the reference for validity", "DWARF generation on is covered by C10's check, not here"]
 
 
+BUILDER_CFG = "SPECIFICATION Spec\nCONSTANTS\n  MaxOps = %d\n%sINVARIANTS\n  %s\nCHECK_DEADLOCK FALSE\n"
+BUILDER_ALL = '  UnitKinds = {"set32", "set64", "getp"}\n  MaxPos = 3\n'
+BUILDER_STRUCT = '  UnitKinds = {}\n  MaxPos = 1\n'
+
+
 def check_C15(ctx):
-    ctx.rule = ("design: Builder.tla (append / positional insert of stack-neutral units, block_at / loop_at / if_else_at, dangling sequences attached later, br / br_if to enclosing "
+    ctx.rule = ("design: Builder.tla (append / positional insert of stack-neutral units, block_at / loop_at / if_else_at, dangling sequences attached later as block / loop / if-else arms, br / br_if / br_table to enclosing "
                 "sequences) model-checked for TreeShaped, FlatBalanced, BranchesInRange; implementation: every build history up to the bound (enumerated by TLC) and random longer ones are "
                 "replayed on the real FunctionBuilder, finished, emitted and decoded; the trace spec re-executes the history with Builder.tla's actions, computes the in-order flattening and "
                 "requires the emitted operator list to equal it modulo an injective type-preserving local map that pins the parameter. A case is one build history.")
     q = ctx.quick()
     L = 3 if q else 4
-    cfg = write_cfg("MC_Builder_gen", "SPECIFICATION Spec\nCONSTANTS\n  MaxOps = %d\nINVARIANTS\n  TreeShaped\n  FlatBalanced\n  BranchesInRange\nCHECK_DEADLOCK FALSE\n" % (L + 1 if q else L))
+    cfg = write_cfg("MC_Builder_gen", BUILDER_CFG % (L + 1 if q else L, BUILDER_ALL, "TreeShaped\n  FlatBalanced\n  BranchesInRange"))
     model_check(ctx, "Builder", cfg=cfg, workers=8, label="design-builder")
     hist = os.path.join(ctx.work, "build_histories.txt")
-    cfg = write_cfg("Enum_Builder_gen", "SPECIFICATION Spec\nCONSTANTS\n  MaxOps = %d\nINVARIANTS\n  EmitCase\nCHECK_DEADLOCK FALSE\n" % L)
+    cfg = write_cfg("Enum_Builder_gen", BUILDER_CFG % (L, BUILDER_ALL, "EmitCase"))
     r = tlc("Builder", cfg=cfg, workers=8, cont=False, capture=("CASE", hist + ".a"), name="enum-builder")
     ctx.add_mc(r, "enum-build-histories(len<=%d)" % L)
     # longer histories: random walks
     D = 9 if q else 14
-    cfg = write_cfg("Enum_Builder_genD", "SPECIFICATION Spec\nCONSTANTS\n  MaxOps = %d\nINVARIANTS\n  EmitCase\nCHECK_DEADLOCK FALSE\n" % D)
+    cfg = write_cfg("Enum_Builder_genD", BUILDER_CFG % (D, BUILDER_ALL, "EmitCase"))
     r = tlc("Builder", cfg=cfg, workers=8, cont=False, capture=("CASE", hist + ".b"), name="sim-builder", simulate="num=%d" % (4 if q else 60), extra=["-depth", str(D + 1), "-seed", str(ctx.seed)])
     ctx.add_mc(r, "simulate-build-histories(len<=%d)" % D)
+    # structure-only histories one step longer (no units, positions 0..1): complete trees whose last step is a branch;
+    # the quick tier replays a seed-keyed stratified sample (half of it with dangling sequences attached later), the thorough tier all
+    cfg = write_cfg("Enum_Builder_genS", BUILDER_CFG % (L + 1, BUILDER_STRUCT, "EmitStructCase"))
+    r = tlc("Builder", cfg=cfg, workers=8, cont=False, capture=("CASE", hist + ".c"), name="enum-builder-struct")
+    ctx.add_mc(r, "enum-structure-only-histories(len=%d)" % (L + 1))
+    import zlib
+    struct_all = [l for l in open(hist + ".c")]
+    if q:
+        with_att = [l for l in struct_all if "attach" in l]
+        rest = [l for l in struct_all if "attach" not in l]
+        pick = lambda ls, n: [l for l in ls if (zlib.crc32(l.encode()) + ctx.seed) % max(1, len(ls) // n) == 0]
+        struct = pick(with_att, 6000) + pick(rest, 4000)
+    else:
+        struct = struct_all[::max(1, len(struct_all) // 400000)]
+    ctx.notes["structure_only_histories"] = {"enumerated": len(struct_all), "replayed": len(struct)}
     seen = set()
     budget = 4000 if q else 100000
     longer = [l for l in open(hist + ".b")]
     step = max(1, len(longer) // budget)
     with open(hist, "w") as out:
-        for line in list(open(hist + ".a")) + longer[::step]:
+        for line in list(open(hist + ".a")) + struct + longer[::step]:
             if line not in seen:
                 seen.add(line)
                 out.write(line)
     ctx.notes["build_histories"] = len(seen)
     ctx.exhaustive = True
-    ctx.notes["exhaustive_over"] = "all build histories of length <= %d (positions 0..3); longer histories are random walks" % L
+    ctx.notes["exhaustive_over"] = "all build histories of length <= %d (positions 0..3); structure-only histories of length %d are %s; longer histories are random walks" % (L, L + 1, "sampled" if q else "all replayed")
     trace = os.path.join(ctx.work, "builder.ndjson")
     for f in os.listdir(ctx.work):
         if f.startswith("builder.ndjson"):
@@ -457,10 +477,10 @@ def check_C16(ctx):
                 "in a thread with a 256 KiB stack inside a child process. A case is one (function, traversal flavour).")
     q = ctx.quick()
     L = 3 if q else 4
-    cfg = write_cfg("MC_Traversal_gen", "SPECIFICATION Spec\nCONSTANTS\n  MaxOps = %d\nINVARIANTS\n  InOrderIsRecWalk\n  PreOrderVisitsEachOnce\nCHECK_DEADLOCK FALSE\n" % L)
+    cfg = write_cfg("MC_Traversal_gen", BUILDER_CFG % (L, BUILDER_ALL, "InOrderIsRecWalk\n  PreOrderVisitsEachOnce"))
     model_check(ctx, "Traversal", cfg=cfg, workers=8, label="design-traversal")
     hist = os.path.join(ctx.work, "build_histories.txt")
-    cfg = write_cfg("Enum_Builder_gen", "SPECIFICATION Spec\nCONSTANTS\n  MaxOps = %d\nINVARIANTS\n  EmitCase\nCHECK_DEADLOCK FALSE\n" % (2 if q else 3))
+    cfg = write_cfg("Enum_Builder_gen", BUILDER_CFG % (2 if q else 3, BUILDER_ALL, "EmitCase"))
     r = tlc("Builder", cfg=cfg, workers=8, cont=False, capture=("CASE", hist), name="enum-builder")
     ctx.add_mc(r, "enum-build-histories")
     n = 250 if q else 6000
@@ -635,13 +655,32 @@ def check_C10(ctx):
                         "v5 rows naming file 0 are not synthesized (gimli::write does not emit them)"]
 
 
-def exec_oracle(ctx, gc, n, shards):
+def exec_control_strings(ctx, maxlen, budget):
+    """Control strings over Body.tla's ExecAlphabet; a seed-keyed stratified sample (half with an else arm) when over budget."""
+    import zlib
+    raw = os.path.join(ctx.work, "ectl%d.raw" % maxlen)
+    cfg = write_cfg("Enum_Body_exec_gen", "SPECIFICATION BSpec\nCONSTANTS\n  MaxLen = %d\n  MaxDepth = 3\n  Alphabet <- ExecAlphabet\nINVARIANTS\n  EmitCase\nCHECK_DEADLOCK FALSE\n" % maxlen)
+    r = tlc("Body", cfg=cfg, workers=8, cont=False, capture=("CASE", raw), name="enum-body-exec")
+    ctx.add_mc(r, "enum-exec-control-strings(len<=%d)" % maxlen)
+    lines = [l for l in open(raw)]
+    total = len(lines)
+    if len(lines) > budget:
+        pick = lambda ls, n: [l for l in ls if (zlib.crc32(l.encode()) + ctx.seed) % max(1, len(ls) // max(1, n)) == 0]
+        lines = pick([l for l in lines if "Else" in l], budget // 2) + pick([l for l in lines if "Else" not in l], budget // 2)
+    out = os.path.join(ctx.work, "ectl%d.txt" % maxlen)
+    with open(out, "w") as f:
+        f.writelines(lines)
+    ctx.notes["exec_control_strings"] = {"enumerated": total, "executed": len(lines), "maxlen": maxlen}
+    return out
+
+
+def exec_oracle(ctx, gc, n, shards, extra=""):
     """Differential execution in TLA+: Exec.tla runs the module before and after walrus and compares observations."""
     trace = os.path.join(ctx.work, "exec%d.ndjson" % gc)
     for f in os.listdir(ctx.work):
         if f.startswith("exec%d.ndjson" % gc):
             os.remove(os.path.join(ctx.work, f))
-    out = wv(["trace-exec", "inputs=gen:%d:exec,fixtures" % n, "gc=%d" % gc, "seed=%d" % ctx.seed, "out=" + trace, "shards=%d" % shards])
+    out = wv(["trace-exec", "inputs=gen:%d:exec,fixtures%s" % (n, extra), "gc=%d" % gc, "seed=%d" % ctx.seed, "out=" + trace, "shards=%d" % shards])
     ctx.notes.setdefault("harness", []).append(out.strip().splitlines()[-1])
     allc = []
     from concurrent.futures import ThreadPoolExecutor
@@ -678,12 +717,14 @@ def check_C01(ctx):
     ctx.rule = ("Exec.tla: a small-step semantics (one TLC state per executed instruction) of an i32 subset with locals, globals, structured control, br/br_if/br_table, calls, call_indirect, "
                 "byte and word loads/stores on several memories, host calls, instantiation with active segments and start function. For every generated module of the subset (and every fixture "
                 "in it) TLC instantiates and runs the input and the round-tripped output over the same call sequence on one instance (every exported function twice) and compares instantiation "
-                "outcome, results/traps, host-call trace and exported globals, memories and tables. Outside the subset C01 rests on C03 (every operator, operand and immediate preserved) and "
+                "outcome, results/traps, host-call trace and exported globals, memories and tables. Every valid control string (if/else/block/br/br_if/br_table/return/unreachable, nesting <= 3) up to "
+                "length 7 enumerated from Body.tla is made executable (a host-call marker before every symbol, conditions taken from the argument) and run for all 8 condition vectors. Outside the subset C01 rests on C03 (every operator, operand and immediate preserved) and "
                 "C04 (structure preserved). A case is one module with its call sequence.")
     q = ctx.quick()
     cfg = write_cfg("MC_Body_gen", "SPECIFICATION BSpec\nCONSTANTS\n  MaxLen = %d\n  MaxDepth = 3\nINVARIANTS\n  EmittedMatches\n  EmittedBalanced\nCHECK_DEADLOCK FALSE\n" % (5 if q else 6))
     model_check(ctx, "Body", cfg=cfg, workers=8, label="design-body (elision is order preserving)")
-    exec_oracle(ctx, 0, 600 if q else 30000, 4 if q else 16)
+    ectl = exec_control_strings(ctx, 7, 5000 if q else 10 ** 9)
+    exec_oracle(ctx, 0, 600 if q else 30000, 4 if q else 16, extra=",ectl:" + ectl)
     ctx.assumptions += ["values live in Z/2^15 and memory words are folded into that range: the two programs run under the same semantics, which is what a differential oracle needs",
                         "floating point, SIMD, atomics, 64-bit arithmetic, reference instructions are not executed; for them C01 follows from C03 and C04",
                         "function identity across the round trip (table contents, host-call names) is read off walrus's own index maps"]
